@@ -953,7 +953,11 @@ def check(run: lib.Run, audit: dict) -> int:
                  "3 policies, gen_value trees, hostile float-free JSON (quotes, backslashes, every control-character class, U+007F/U+0085/U+2028, "
                  "astral, empty containers, ints up to 4300 digits, keys that are prefixes / escapes of each other) and hostile environments, each "
                  "dict-valued case again with every dict's insertion order shuffled; floats ⇒ the model answers null; the real keys on the cache "
-                 "protocol = etag:model text")
+                 "protocol = etag:model text"
+                 "; the translated source of the cache protocol vs CPython: the real Guard._cache_key on the serialiser pools × 4 etags; the cache "
+                 "range of _evaluate_core_async (same statements compiled from the source) over cache None/present × 4 etags × 7 get outcomes × 4 "
+                 "decide outcomes × 2 set outcomes × 5 generation pairs × 2 ttls (× 3 envs sampled; thorough: all); set_policy over 2 policies × "
+                 "compile ok/raising/absent × cache none/ok/raising × 2 generations — value and effect trace")
     run.assumptions = ["KeyFaithful is reduced by Rbacx.C08.c08_key_faithful to: sha3-256 of the sorted policy JSON collision-free on the policies in "
                        "play; the raw decision independent of the ORDER of dict entries of the env; envs JSON-valued, float-free, datetime-free. The "
                        "canonical serialiser itself is PROVED injective up to dict-entry order (c08_canon_json_injective, c08_key_injective) and tied "
@@ -962,6 +966,8 @@ def check(run: lib.Run, audit: dict) -> int:
                        "the obligation checker is a function of (raw decision, context)"]
     if not audit["ok"]:
         raise lib.CheckError(f"Lean build/audit failed at {audit['stage']}: {audit.get('log') or audit.get('forbidden') or audit.get('bad_axioms')}")
+    # the cache protocol as it is written NOW, translated into Lean, is proved to be the step of the models (per-run obligation)
+    ok_tr, ok_py, detail_tr, tr = translated_obligation(run, audit)
     real_keys = check_keys_and_protocol(run)
     check_canon_model(run, real_keys)
     run_cases(run)
@@ -973,9 +979,31 @@ def check(run: lib.Run, audit: dict) -> int:
     violations = []
     if run.disagreements and not run.spec_failures:
         check_canon_model(run, real_keys, scale=5)  # correspondence broke: widen the search for two envs sharing a real key
+    if not ok_tr and not run.spec_failures:
+        # the source no longer is the protocol the theorems are about: widen the search for a history on which the cache shows
+        run_cases(run, scale=4)
+        if not run.spec_failures:
+            check_canon_model(run, real_keys, scale=3)
     if run.spec_failures:
         path = run.write_replay("spec", {"what": "C08 violated", "case": run.spec_failures[0], "count": len(run.spec_failures)})
         violations.append((path, True))
+    elif not ok_tr:
+        path = run.write_replay("obligation", {"what": "per-run obligation Rbacx/Run/C08_translated.lean no longer checks: the translated source of the "
+                                               "engine's cache protocol (the cache range of Guard._evaluate_core_async, _cache_key / "
+                                               "_normalize_env_for_cache, set_policy / _recompute_etag / clear_cache) is not proved to be the key "
+                                               "etag:canonJson(env), the cached step of the model (CacheHist.stepCached, the hypotheses of "
+                                               "Rbacx.C08.c08_transparent) and the updater program of Rbacx.Conc; the widened search found no history "
+                                               "on which a cached engine answers differently from an uncached one",
+                                               "translation": {k: (v.get("lean") if isinstance(v, dict) else v) for k, v in tr.items()} if isinstance(tr, dict) else tr,
+                                               "lean": detail_tr[-1500:], "first_disagreement": run.disagreements[:1]})
+        violations.append((path, False))
+    elif not ok_py or any(d.get("part") == "translated source vs python" for d in run.disagreements):
+        first = next((d for d in run.disagreements if d.get("part") == "translated source vs python"),
+                     {"part": "translated source vs python", "what": detail_tr})
+        path = run.write_replay("correspondence", {"what": "translated source vs python: " + str(first.get("what")) + "; the obligation "
+                                                   "C08_translated rests on a translation that CPython contradicts (or that could not be evaluated)",
+                                                   "case": first, "count": len(run.disagreements)})
+        violations.append((path, False))
     elif run.disagreements:
         path = run.write_replay("correspondence", {"what": f"{run.disagreements[0].get('what', CANON_WHAT)}: the model of the cache key's canonical "
                                                    "serialiser and the implementation disagree; theorems Rbacx.C08.c08_canon_json_injective / "
@@ -986,7 +1014,12 @@ def check(run: lib.Run, audit: dict) -> int:
 
 
 def replay(run: lib.Run, audit: dict, path: str) -> int:
-    c = json.load(open(path))["case"]
+    rp = json.load(open(path))
+    c = rp.get("case") or {}
+    if not c:
+        print("nothing to re-run on the implementation:", rp.get("what"))
+        print("recorded:", str(rp.get("lean") or rp.get("first_disagreement"))[:1500])
+        return 0
     if c.get("part") == "canon":
         out = proto.run_driver([{"cmd": "canon-json", "value": proto.enc(c["value"])}])[0]
         print("now: impl :", Guard._normalize_env_for_cache(c["value"])[:1500])
